@@ -112,7 +112,7 @@ def run(ctx):
     wv.append(dict(wv[0], c=0, m=3, i0=1, i1=0, i2=1, i3=0, D0=2, D1=2, D2=4, D3=2))
     wv.append(dict(wv[0], c=2, m=0, i0=0, i1=2, i2=0, i3=1, D0=4, D1=4, D2=4, D3=4))
     wv.append(dict(wv[0], c=1, m=1, i0=2, i1=1, i2=2, i3=1, D0=3, D1=3, D2=3, D3=3))
-    qs, rejected = O.make_queries(ctx, progs, O.MODES, O.visit_harness, known_keys=list(known), timeout=300, witness_vectors=wv, modes_of=modes_of)
+    qs, rejected = O.make_queries(ctx, progs, O.MODES, O.visit_harness, known_keys=list(known), timeout=900, witness_vectors=wv, modes_of=modes_of)
     C.run_queries(ctx, qs)
     ctx.extra['programs'] = len(progs)
     ctx.extra['programs_rejected_by_occa'] = rejected[:40]
